@@ -26,6 +26,7 @@ class Scope:
         self.body = []              # executable part: ("ref", name, tag) | ("block", Scope) | ("stmt", text)
         self.contains = []          # contained subprograms
         self.typ = {}
+        self.form = {}
 
     def visible(self, name):
         s = self
@@ -87,6 +88,7 @@ class Gen:
         sc.plain = ["v%d_%d" % (self.nscope, j) for j in range(rng.randrange(1, 3))]
         for n in sc.decl + sc.plain:
             sc.typ[n] = rng.choice(TYPES)
+            sc.form[n] = rng.randrange(5)
 
     def fill_body(self, sc, depth):
         rng = self.rng
@@ -184,7 +186,18 @@ def render(units):
             out.append(ind + "use %s, %s" % (m, ", ".join("%s => %s" % kv for kv in ren.items())))
         out.append(ind + "real :: x")
         for n in sc.decl:
-            out.append(ind + "%s :: %s(%s)" % (sc.typ[n], n, ", ".join(["10"] * NARGS[n]) if True else ""))
+            dims = ", ".join(["10"] * NARGS[n])
+            f = sc.form.get(n, 0)
+            if f == 1:          # a user function of that name
+                out.append(ind + "%s, external :: %s" % (sc.typ[n], n))
+            elif f == 2:
+                out.append(ind + "%s, dimension(%s) :: %s" % (sc.typ[n], dims, n))
+            elif f == 3:        # old style, no double colon
+                out.append(ind + "%s %s(%s)" % (sc.typ[n], n, dims))
+            elif f == 4:
+                out.append(ind + "%s, target, save :: %s(%s)" % (sc.typ[n], n, dims))
+            else:
+                out.append(ind + "%s :: %s(%s)" % (sc.typ[n], n, dims))
         for n in sc.plain:
             out.append(ind + "%s :: %s" % (sc.typ[n], n))
 
